@@ -1152,6 +1152,9 @@ def run(ctx):
                    "sort functions are a named family; the list a function returned is an input of the model"]
     ctx.assumptions = ["values are only carried, never computed with: exact as rationals of the stored doubles"]
     quick = ctx.quick()
+    # the thorough tier is sharded over worker processes (each with its own random stream): every worker runs the
+    # fixed parts on its own random small tables and takes its share of the large tables and of the random cases
+    wi, nw = getattr(ctx, "worker", (0, 1))
     specs = small_specs(ctx.rng)
     degenerate_stream(ctx, specs)
     # a call with a user function first, default calls afterwards (nothing may stick at module level)
@@ -1161,14 +1164,15 @@ def run(ctx):
     container_stream(ctx, specs[:1] if quick else specs[:3])
     metadata_aliasing_stream(ctx, [specs[0]] if quick else [specs[0], specs[2]])
     degenerate_shape_stream(ctx)
-    unicode_stream(ctx, 1 if quick else 6)
+    unicode_stream(ctx, 1 if quick else 3)
     rng = ctx.rng
     if quick:
         wide_stream(ctx, [rng.randint(129, 200), rng.randint(257, 300), rng.randint(513, 560)])
     else:
-        wide_stream(ctx, [rng.randint(64, 127), rng.randint(128, 140), rng.randint(129, 255), rng.randint(256, 300),
-                          rng.randint(257, 400), 128, 256, 64, 512, rng.randint(513, 700), 1024] +
-                    [rng.randint(130, 320) for _ in range(6)])
+        sizes = [rng.randint(64, 127), 128, rng.randint(129, 255), 256, rng.randint(257, 400), 512,
+                 rng.randint(513, 700), 1024, 64, rng.randint(128, 140), rng.randint(256, 300)] + \
+                [rng.randint(130, 320) for _ in range(5)]
+        wide_stream(ctx, sizes[wi::nw] if nw > 1 else sizes)
     # shared labels on both axes: all pairs of initial orders of 3 labels; a sample of the 4-label ones
     l3 = ["taxon2", "taxon10", "taxon1"]
     cooccurrence_stream(ctx, l3, list(itertools.permutations(l3)), ["default", "reverse"] if quick else COOC_FS, "cooccurrence")
@@ -1177,14 +1181,16 @@ def run(ctx):
     cooccurrence_stream(ctx, l4, rng.sample(p4, 3 if quick else 12) + [tuple(sorted(l4))],
                         ["default", "sorted"] if quick else COOC_FS, "cooccurrence")
     routes = ["dense", "csc", "csr_unsorted"] if quick else list(core.ROUTES)
+    if not quick and nw > 1:
+        routes = [r for k, r in enumerate(routes) if k % nw == wi % len(routes) or (k + 4) % nw == wi % len(routes)]
     exhaustive_perms(ctx, specs[:3] if quick else specs, routes if not quick else routes[:2])
     ctx.exhaustive = False
     if quick:
-        op_stream(ctx, 310, 6)
-        op_stream(ctx, 90, 9)
+        op_stream(ctx, 290, 6)
+        op_stream(ctx, 85, 9)
     else:
-        op_stream(ctx, 11000, 6)
-        op_stream(ctx, 6000, 12)
+        op_stream(ctx, 16000 // nw, 6)
+        op_stream(ctx, 8000 // nw, 12)
 
 
 def replay(ctx, rec):
